@@ -601,3 +601,7 @@ Proof.
   exists (String c_dq (String (chr 255) (String c_dq EmptyString))), (enc3 rune_error).
   vm_compute. repeat split.
 Qed.
+
+(** the text sent for a tag is a double-quoted literal of the lenient grammar denoting it *)
+Theorem etag_marshal_in_lenient_grammar (ip : N -> bool) s : dq_den true (etag_marshal ip s) = Some s.
+Proof. apply etag_unmarshal_iff. apply etag_roundtrip. Qed.
